@@ -521,7 +521,8 @@ pub fn bind(case: &Case, text: &str) -> Result<Bound, String> {
     }
     let mut gcol = vec![];
     for nm in &ex.nonterminal_kinds {
-        gcol.push(nonterminal_index(case, nm).ok_or(format!("goto column {nm} is not a nonterminal"))?);
+        // (255: a column that no kind selects)
+        gcol.push(if nm.is_empty() { 255 } else { nonterminal_index(case, nm).ok_or(format!("goto column {nm} is not a nonterminal"))? });
     }
     let mut rule = vec![];
     for r in &ex.reduce {
@@ -580,12 +581,13 @@ pub fn isomorphism(case: &Case, b: &Bound, rt: &Tables) -> Result<(usize, usize)
                 (c, r) => return Err(format!("state {ka} on {colname}: emitted {c:?}, LALR(1) says {r:?}")),
             }
         }
-        for (gi, cell) in ex.goto[ka].iter().enumerate() {
+        // the goto function as `get_goto` computes it: the column selected by the nonterminal's kind
+        for nt in 0..case.g.n {
             edges += 1;
-            let nt = b.gcol[gi] as usize;
+            let cell: Option<usize> = b.gcol.iter().position(|c| *c as usize == nt).and_then(|gi| ex.goto[ka][gi]);
             match (cell, rt.goto[ra][nt]) {
                 (None, None) => {}
-                (Some(k), Some(r)) => link(&mut map, &mut queue, *k, r, "goto")?,
+                (Some(k), Some(r)) => link(&mut map, &mut queue, k, r, "goto")?,
                 (c, r) => return Err(format!("state {ka} goto on {}: emitted {c:?}, LALR(1) says {r:?}", case.rendered.names.nonterminals[nt])),
             }
         }
